@@ -35,6 +35,100 @@ type shellModel struct {
 	tablePos                         token.Pos
 	pending                          map[int64]bool // EOF verdict: Next returns true
 	complete                         map[int64]bool
+	// roles, resolved from the lookup in Scanner.Next (not from identifier names)
+	tableVar, classVar            string
+	stateT, classT, actionT       *types.Named
+	stF                           *types.Var
+	actionOut                     map[int64][]string // output symbols per action constant, derived from the interpreter arm
+	interpOK                      bool               // the interpreter loop, the end-of-input verdict and Complete were all read
+}
+
+// shellRoles finds, in Scanner.Next, the lookup  T[s.f][C[b]]  and resolves
+// from it: the transition table T, the byte-class table C, the state field f
+// and the state/class/action types.
+func shellRoles(c *Ctx, m *shellModel) bool {
+	nextFn := c.P.Func("shell", "Scanner", "Next")
+	if nextFn == nil {
+		c.undecided("ANCHOR", "shell.(*Scanner).Next", 0, "not found")
+		return false
+	}
+	found := false
+	allInstrs(nextFn, func(in ssa.Instruction) {
+		ld, ok := in.(*ssa.UnOp)
+		if !ok || ld.Op != token.MUL || found {
+			return
+		}
+		ia, ok := ld.X.(*ssa.IndexAddr)
+		if !ok {
+			return
+		}
+		var ria *ssa.IndexAddr
+		switch row := ia.X.(type) {
+		case *ssa.UnOp: // table of slices: load of the row
+			if row.Op == token.MUL {
+				ria, _ = row.X.(*ssa.IndexAddr)
+			}
+		case *ssa.IndexAddr: // table of arrays
+			ria = row
+		}
+		if ria == nil {
+			return
+		}
+		g, ok := ria.X.(*ssa.Global)
+		if !ok {
+			return
+		}
+		_, sf := loadedField(ria.Index)
+		if sf == nil {
+			return
+		}
+		cl, ok := ia.Index.(*ssa.UnOp)
+		if !ok || cl.Op != token.MUL {
+			return
+		}
+		cia, ok := cl.X.(*ssa.IndexAddr)
+		if !ok {
+			return
+		}
+		g2, ok := cia.X.(*ssa.Global)
+		if !ok {
+			return
+		}
+		ent, ok := ld.Type().Underlying().(*types.Struct)
+		if !ok || ent.NumFields() != 2 {
+			return
+		}
+		st, ok := sf.Type().(*types.Named)
+		if !ok {
+			return
+		}
+		ct, ok := cl.Type().(*types.Named)
+		if !ok {
+			return
+		}
+		var at *types.Named
+		nState := 0
+		for i := 0; i < 2; i++ {
+			ft, ok := ent.Field(i).Type().(*types.Named)
+			if !ok {
+				return
+			}
+			if types.Identical(ft, st) {
+				nState++
+			} else {
+				at = ft
+			}
+		}
+		if nState != 1 || at == nil {
+			return
+		}
+		m.tableVar, m.classVar, m.stF, m.stateT, m.classT, m.actionT = g.Name(), g2.Name(), sf, st, ct, at
+		found = true
+	})
+	if !found {
+		c.undecided("ANCHOR", "shell.(*Scanner).Next:lookup", nextFn.Pos(), "no lookup of the form table[s.state][classTable[byte]] with a {state, action} entry was found")
+	}
+	return found
 }
 
 // extractShellTables reads update and classOf from the typed AST.
@@ -44,16 +138,19 @@ func extractShellTables(c *Ctx) *shellModel {
 		c.undecided("ANCHOR", "package shell", 0, "package not found")
 		return nil
 	}
-	m := &shellModel{update: map[int64]map[int64]fstEntry{}, rowLen: map[int64]int{}}
-	m.stateName, m.stateVal = constsOfType(p, "state")
-	m.className, m.classVal = constsOfType(p, "class")
-	m.actionName, m.actionVal = constsOfType(p, "action")
+	m := &shellModel{update: map[int64]map[int64]fstEntry{}, rowLen: map[int64]int{}, actionOut: map[int64][]string{}}
+	if !shellRoles(c, m) {
+		return nil
+	}
+	m.stateName, m.stateVal = constsOfType(p, m.stateT.Obj().Name())
+	m.className, m.classVal = constsOfType(p, m.classT.Obj().Name())
+	m.actionName, m.actionVal = constsOfType(p, m.actionT.Obj().Name())
 	if len(m.stateName) == 0 || len(m.className) == 0 || len(m.actionName) == 0 {
 		c.undecided("ANCHOR", "shell.state/class/action constants", 0, "constant families not found")
 		return nil
 	}
 	info := p.TypesInfo
-	upd, upos := pkgVarInit(p, "update")
+	upd, upos := pkgVarInit(p, m.tableVar)
 	cl, ok := upd.(*ast.CompositeLit)
 	if !ok {
 		c.undecided("R-FST-TOTAL", "shell.update", upos, "update is not a composite literal; table cannot be read")
@@ -92,10 +189,20 @@ func extractShellTables(c *Ctx) *shellModel {
 				if kv, ok := fe.(*ast.KeyValueExpr); ok {
 					val = kv.Value
 					if id, ok := kv.Key.(*ast.Ident); ok {
-						switch id.Name {
-						case "state":
+						if fv, ok := info.Uses[id].(*types.Var); ok {
+							if types.Identical(fv.Type(), m.stateT) {
+								which = 0
+							} else if types.Identical(fv.Type(), m.actionT) {
+								which = 1
+							}
+						}
+					}
+				} else if tvl, ok := info.Types[ecl]; ok {
+					// positional: the k-th field of the entry struct
+					if est, ok := tvl.Type.Underlying().(*types.Struct); ok && k < est.NumFields() {
+						if types.Identical(est.Field(k).Type(), m.stateT) {
 							which = 0
-						case "action":
+						} else {
 							which = 1
 						}
 					}
@@ -103,10 +210,9 @@ func extractShellTables(c *Ctx) *shellModel {
 				// decide by the constant's type rather than position when possible
 				if tv, ok := info.Types[val]; ok {
 					if nt, ok := tv.Type.(*types.Named); ok {
-						switch nt.Obj().Name() {
-						case "state":
+						if types.Identical(nt, m.stateT) {
 							which = 0
-						case "action":
+						} else if types.Identical(nt, m.actionT) {
 							which = 1
 						}
 					}
@@ -137,7 +243,7 @@ func extractShellTables(c *Ctx) *shellModel {
 		m.rowLen[st] = maxIdx + 1
 	}
 	// classOf
-	cof, cpos := pkgVarInit(p, "classOf")
+	cof, cpos := pkgVarInit(p, m.classVar)
 	ccl, ok := cof.(*ast.CompositeLit)
 	if !ok {
 		c.undecided("R-CLASSOF", "shell.classOf", cpos, "classOf is not a composite literal")
@@ -287,7 +393,7 @@ func runC16(c *Ctx) {
 	for _, f := range []*ssa.Function{nextFn, completeFn, restFn, newFn, resetFn} {
 		c.sawFn(fnName(f))
 	}
-	stF := fieldByType(scanner, "state")
+	stF := m.stF
 	errF := fieldByTypeString(scanner, "error")
 	bufF := fieldByTypeString(scanner, "*bufio.Reader")
 	curF := fieldByTypeString(scanner, "bytes.Buffer")
@@ -419,20 +525,41 @@ func runC16(c *Ctx) {
 	}
 
 	// ---- R-CLASSOF
-	// map implementation classes to reference classes by NAME of the constant
+	// map implementation classes to reference classes by what the class table does: a class denotes the
+	// reference class of the majority of the bytes it is assigned to (names play no role)
 	implToRef := map[int64]int{}
-	nameToRef := map[string]int{"clOther": rcOther, "clBreak": rcBlank, "clNewline": rcNewline, "clQuote": rcBackslash, "clSingle": rcSingle, "clDouble": rcDouble}
-	for v, n := range m.className {
-		r, ok := nameToRef[n]
-		if !ok {
-			c.undecided("R-CLASSOF", "class "+n, m.tablePos, "class constant has no counterpart in the reference")
-			return
+	votes := map[int64]map[int]int{}
+	for b := 0; b < 256; b++ {
+		v := m.classOf[b]
+		if votes[v] == nil {
+			votes[v] = map[int]int{}
 		}
-		implToRef[v] = r
+		votes[v][refClassOfByte(b)]++
 	}
-	if len(implToRef) != 6 {
-		c.undecided("R-CLASSOF", "classes", m.tablePos, "expected six classes")
-		return
+	for v, vs := range votes {
+		best, bestN := -1, 0
+		for r := 0; r < 6; r++ {
+			if vs[r] > bestN {
+				best, bestN = r, vs[r]
+			}
+		}
+		implToRef[v] = best
+		if _, declared := m.className[v]; !declared {
+			c.bad("R-CLASSOF", fmt.Sprintf("class %d", v), m.tablePos, "the class table assigns bytes to a value that is not a declared class constant")
+		}
+	}
+	covered := map[int]bool{}
+	for _, r := range implToRef {
+		covered[r] = true
+	}
+	if len(covered) != 6 {
+		var miss []string
+		for r := 0; r < 6; r++ {
+			if !covered[r] {
+				miss = append(miss, refClassNames[r])
+			}
+		}
+		c.bad("R-CLASSOF", "classes", m.tablePos, "no class of the tokenizer stands for the reference class(es) "+strings.Join(miss, ", ")+": those bytes are not distinguished")
 	}
 	for b := 0; b < 256; b++ {
 		want := refClassOfByte(b)
@@ -481,6 +608,7 @@ func runC16(c *Ctx) {
 	}
 
 	// ---- R-FST-EQUIV (only meaningful if the interpreter does what names say)
+	m.interpOK = evalOK && interp != nil && interp.ok
 	if evalOK && interp != nil && interp.ok {
 		productCheck(c, m, implToRef)
 	} else {
@@ -819,7 +947,7 @@ func checkInterp(c *Ctx, m *shellModel, nextFn *ssa.Function, stF, errF, bufF, c
 			return
 		}
 		g, ok := ria.X.(*ssa.Global)
-		if !ok || g.Name() != "update" {
+		if !ok || g.Name() != m.tableVar {
 			return
 		}
 		entryLoad = ld
@@ -840,7 +968,7 @@ func checkInterp(c *Ctx, m *shellModel, nextFn *ssa.Function, stF, errF, bufF, c
 	if cl, ok := ia.Index.(*ssa.UnOp); ok && cl.Op == token.MUL {
 		if cia, ok := cl.X.(*ssa.IndexAddr); ok {
 			g, ok := cia.X.(*ssa.Global)
-			if !ok || g.Name() != "classOf" {
+			if !ok || g.Name() != m.classVar {
 				lookupOK = false
 				why = append(why, "column index is not classOf[..]")
 			}
@@ -896,10 +1024,10 @@ func checkInterp(c *Ctx, m *shellModel, nextFn *ssa.Function, stF, errF, bufF, c
 	stateIdx, actionIdx := -1, -1
 	for i := 0; i < entT.NumFields(); i++ {
 		if nt, ok := entT.Field(i).Type().(*types.Named); ok {
-			switch nt.Obj().Name() {
-			case "state":
+			switch {
+			case types.Identical(nt, m.stateT):
 				stateIdx = i
-			case "action":
+			case types.Identical(nt, m.actionT):
 				actionIdx = i
 			}
 		}
@@ -1006,26 +1134,34 @@ func checkInterp(c *Ctx, m *shellModel, nextFn *ssa.Function, stF, errF, bufF, c
 			}
 		}
 		got := strings.Join(writes, ",") + " → " + end
-		var want string
-		switch name {
-		case "push":
-			want = "c → continue"
-		case "xpush":
-			want = "92,c → continue"
-		case "emit":
-			want = " → return true"
-		case "drop":
-			want = " → continue"
+		// the meaning of the action constant is what its arm does; it must be one of the four effects of a
+		// word-splitting transducer.  Where the constant carries one of the conventional names, the name is
+		// additionally held to its promise.
+		var out []string
+		recognised := true
+		switch got {
+		case "c → continue":
+			out = []string{"c"}
+		case "92,c → continue":
+			out = []string{"\\", "c"}
+		case " → return true":
+			out = []string{"EMIT"}
+		case " → continue":
+			out = nil
 		default:
-			c.undecided("R-FST-INTERP", armKey, blk.Instrs[0].Pos(), "action constant unknown to the reference semantics")
-			allOK = false
-			continue
+			recognised = false
 		}
-		if got == want {
-			c.ok("R-FST-INTERP", armKey, instrPos(blk.Instrs[0]), "effect: "+got)
-		} else {
+		want, named := map[string]string{"push": "c → continue", "xpush": "92,c → continue", "emit": " → return true", "drop": " → continue"}[name]
+		switch {
+		case !recognised:
+			c.bad("R-FST-INTERP", armKey, instrPos(blk.Instrs[0]), fmt.Sprintf("arm does %q, which is none of the four effects of a word-splitting step (append c / append \\ c / end the token / nothing)", got))
+			allOK = false
+		case named && got != want:
 			c.bad("R-FST-INTERP", armKey, instrPos(blk.Instrs[0]), fmt.Sprintf("arm does %q, the action name promises %q", got, want))
 			allOK = false
+		default:
+			m.actionOut[v] = out
+			c.ok("R-FST-INTERP", armKey, instrPos(blk.Instrs[0]), "effect: "+got)
 		}
 	}
 	// default arm panics
@@ -1042,10 +1178,6 @@ func productCheck(c *Ctx, m *shellModel, implToRef map[int64]int) {
 	type pair struct {
 		s int64
 		r refState
-	}
-	refToImplClass := map[int]int64{}
-	for iv, rv := range implToRef {
-		refToImplClass[rv] = iv
 	}
 	start := pair{m.initial, refState{0, false}}
 	seen := map[pair]string{start: ""}
@@ -1066,22 +1198,19 @@ func productCheck(c *Ctx, m *shellModel, implToRef map[int64]int) {
 		} else {
 			c.bad("R-FST-EQUIV", vk, m.tablePos, fmt.Sprintf("at end of input %q the implementation says pending=%v complete=%v, POSIX reference says pending=%v complete=%v (state %s)", path, ip, ic, rp, rc, m.stateName[p.s]))
 		}
-		for rcl := 0; rcl < 6; rcl++ {
-			icl := refToImplClass[rcl]
+		var icls []int64
+		for icl := range implToRef {
+			icls = append(icls, icl)
+		}
+		sort.Slice(icls, func(i, j int) bool { return icls[i] < icls[j] })
+		for _, icl := range icls {
+			rcl := implToRef[icl]
 			e, ok := m.update[p.s][icl]
 			if !ok {
 				continue // reported by R-FST-TOTAL
 			}
 			transitions++
-			var out []string
-			switch m.actionName[e.Action] {
-			case "push":
-				out = []string{"c"}
-			case "xpush":
-				out = []string{"\\", "c"}
-			case "emit":
-				out = []string{"EMIT"}
-			}
+			out := m.actionOut[e.Action]
 			nr, rout := refStep(p.r, rcl)
 			in := path + refClassSample[rcl]
 			k := fmt.Sprintf("update[%s][%s]@%s", m.stateName[p.s], m.className[icl], refName(p.r))
